@@ -12,7 +12,7 @@ COQ_HEADER = ("From Coq Require Import List NArith ZArith.\nFrom RV Require Impo
 RUN_EXPR = "Run.C25.run"
 RULE = ("selector lists (1-3 complex selectors, all combinators, selector pseudos nested to depth 2, nth arguments) whose "
         "type / class / id / placeholder / pseudo / attribute names are drawn from a pool of source spellings: plain, "
-        "non-ASCII, digit-leading, hex escapes (1-6 digits, with and without the terminating space), escaped "
+        "non-ASCII incl. astral (4-byte) letters raw and as hex escapes, digit-leading, hex escapes (1-6 digits), escaped "
         "punctuation, escaped control characters, namespaces; attribute operators = ~= |= ^= $= *= with quoted / "
         "unquoted values and modifiers; distinct = distinct source text; non-trivial = contains an escape, a non-ASCII "
         "or a digit-leading name")
